@@ -256,7 +256,13 @@ func (g *GREASEEncryptedClientHelloExtension) Write(b []byte) (int, error) {
 	if !extData.ReadUint16LengthPrefixed(&ignored) {
 		return fullLen, errors.New("bad payload")
 	}
-	g.CandidatePayloadLens = []uint16{uint16(len(ignored) - cipherLen(g.cipherSuite.AeadId, 0))}
+	// The payload is an AEAD ciphertext and cannot be shorter than the tag;
+	// without this check the subtraction below wraps around.
+	tagLen := cipherLen(g.cipherSuite.AeadId, 0)
+	if len(ignored) < tagLen {
+		return fullLen, fmt.Errorf("bad payload: %d bytes, shorter than the AEAD tag", len(ignored))
+	}
+	g.CandidatePayloadLens = []uint16{uint16(len(ignored) - tagLen)}
 
 	return fullLen, nil
 }
